@@ -129,6 +129,48 @@ def run(run):
         base.append((d, t))
         for _ in range(3 if tier_q else 5):
             variants.append((len(base) - 1, d, vary(run.rng, t, is_dml)))
+    # every keyword of the grammar at least once, deterministically: all-lower, all-upper and mixed case of the whole statement (quoted parts untouched)
+    RICH = ["CREATE TABLE IF NOT EXISTS t (a INT UNSIGNED ZEROFILL NOT NULL AUTO_INCREMENT COMMENT 'c', b TIMESTAMP NULL DEFAULT CURRENT_TIMESTAMP ON UPDATE CURRENT_TIMESTAMP, "
+            "c VARCHAR(10) CHARACTER SET utf8 COLLATE utf8_bin DEFAULT 'x', d INT GENERATED ALWAYS AS (a + 1) STORED, PRIMARY KEY (a), UNIQUE KEY u1 (c(4)) USING BTREE COMMENT 'k', "
+            "KEY k1 (b) KEY_BLOCK_SIZE=4, FULLTEXT KEY f1 (c), CONSTRAINT fk1 FOREIGN KEY (a) REFERENCES o (id) ON DELETE CASCADE ON UPDATE RESTRICT, "
+            "CONSTRAINT fk2 FOREIGN KEY (b) REFERENCES o (id) ON DELETE SET NULL ON UPDATE NO ACTION) ENGINE=InnoDB AUTO_INCREMENT=7 DEFAULT CHARSET=utf8 COLLATE=utf8_bin "
+            "ROW_FORMAT=DYNAMIC STATS_PERSISTENT=1 COMMENT='t'",
+            "CREATE TABLE h (a STRING COMMENT 'x') COMMENT 'h' PARTITIONED BY (dt STRING) ROW FORMAT SERDE 's' STORED AS INPUTFORMAT 'i' OUTPUTFORMAT 'o' LOCATION '/p' TBLPROPERTIES ('k'='v')",
+            "CREATE TABLE h2 (a STRING) ROW FORMAT DELIMITED FIELDS TERMINATED BY ',' STORED AS TEXTFILE", "CREATE TABLE c AS SELECT a FROM t",
+            "ALTER TABLE t ADD COLUMN2 INT, MODIFY b BIGINT NOT NULL, CHANGE c c2 INT, RENAME COLUMN d TO e, DROP COLUMN f, ADD PARTITION (dt='1'), DROP IF EXISTS PARTITION (dt='2'), ADD IF NOT EXISTS PARTITION (dt='3')",
+            "SELECT DISTINCT a, sum(b) OVER (PARTITION BY c ORDER BY d DESC NULLS LAST ROWS BETWEEN UNBOUNDED PRECEDING AND 1 FOLLOWING), "
+            "max(b) OVER (ORDER BY d ROWS BETWEEN CURRENT ROW AND UNBOUNDED FOLLOWING), CASE a WHEN 1 THEN 2 ELSE 3 END, CASE WHEN a IS NOT NULL THEN 1 END, "
+            "CAST(a AS SIGNED), CAST(b AS DECIMAL(10, 2)), EXTRACT(YEAR FROM d), IF(a, 1, 2) FROM t INNER JOIN u ON t.a = u.a LEFT OUTER JOIN v USING(a) CROSS JOIN w "
+            "RIGHT JOIN x ON 1 = 1 FULL JOIN y ON 2 = 2 WHERE a BETWEEN 1 AND 2 AND b NOT IN (1, 2) OR c LIKE 'x' XOR d RLIKE 'y' AND e REGEXP 'z' AND EXISTS (SELECT 1 FROM z) "
+            "AND f IS NULL AND g DIV 2 = 1 AND h MOD 3 = 0 GROUP BY a, b WITH ROLLUP HAVING count(1) > 1 ORDER BY a ASC NULLS FIRST, b DESC LIMIT 3 OFFSET 4",
+            "SELECT a FROM t GROUP BY GROUPING SETS ((a), (a, b), ()) UNION ALL SELECT b FROM u EXCEPT SELECT c FROM v INTERSECT SELECT d FROM w MINUS SELECT e FROM x",
+            "SELECT a FROM t LATERAL VIEW OUTER explode(arr) lv AS x SORT BY a DISTRIBUTE BY b CLUSTER BY c", "WITH w AS (SELECT a FROM t) SELECT a FROM w GROUP BY a WITH CUBE",
+            "INSERT OVERWRITE TABLE t PARTITION (dt = '1') SELECT a FROM u", "INSERT IGNORE INTO t (a, b) VALUES (1, 2), (3, 4)", "UPDATE t SET a = 1 WHERE b = 2 ORDER BY c LIMIT 1",
+            "DELETE FROM t WHERE a = 1 ORDER BY b DESC LIMIT 2", "ANALYZE TABLE t PARTITION (dt='1') COMPUTE STATISTICS FOR COLUMNS CACHE METADATA NOSCAN", "MSCK REPAIR TABLE t",
+            "SHOW COLUMNS FROM t WHERE a = 1", "SHOW TABLES", "SHOW DATABASES", "TRUNCATE TABLE t", "DROP TABLE IF EXISTS t", "USE db", "SET a = b"]
+
+    def recase(t, f):
+        out, q = [], None
+        for ch in t:
+            if q:
+                out.append(ch)
+                if ch == q:
+                    q = None
+            elif ch in "'`\"":
+                q = ch
+                out.append(ch)
+            else:
+                out.append(f(ch))
+        return "".join(out)
+    for t in RICH:
+        data_words = {"TRUE", "FALSE", "NULL", "BTREE", "INNODB", "DYNAMIC", "UTF8", "UTF8MB4", "UTF8_BIN", "INT", "VARCHAR", "DECIMAL", "BIGINT", "DATETIME", "TEXT",
+                      "CURRENT_TIMESTAMP", "STRING", "TIMESTAMP", "USING"}          # type names, option values, variables are data; USING: K-USING-CASE
+        names = {w for w in re.findall(r"[A-Za-z_]\w*", t) if w.upper() not in c08.WORDS or w.upper() in data_words}   # identifiers and data keep their spelling
+        for d in ("MYSQL", "HIVE"):
+            base.append((d, t))
+            for f in (str.lower, str.upper, lambda c: c.upper() if run.rng.random() < 0.5 else c.lower()):
+                vt = re.sub(r"[A-Za-z_]\w*|'[^']*'|`[^`]*`", lambda m: m.group(0) if (m.group(0) in names or m.group(0)[0] in "'`") else recase(m.group(0), f), t)
+                variants.append((len(base) - 1, d, vt))
     # expressions: one specification expression, several choice streams (spellings, letter case, redundant parentheses)
     ebase = []
     for _ in range(150 if tier_q else 8000):
